@@ -378,6 +378,10 @@ class EptMapResult:
         # max_tower_count = int.from_bytes(view[24:32], byteorder="little")
         # tower_offset = int.from_bytes(view[32:40], byteorder="little")
         tower_count = int.from_bytes(view[40:48], byteorder="little")
+        if tower_count > (len(view) - 48) // 8:
+            # Each tower has at least an 8 byte referent id
+            raise ValueError(f"ept_map result tower count {tower_count} exceeds the data available")
+
         tower_data_offset = 8 * tower_count  # Ignore referent ids
         view = view[48 + tower_data_offset :]
 
